@@ -270,7 +270,7 @@ fn dump_file(path: &Path, msz: usize) -> Dump {
     // Chains, through the next pointers.
     let starts: BTreeMap<u64, usize> = res.blocks.iter().enumerate().map(|(i, b)| (b.pos, i)).collect();
     let limit = res.blocks.len() + 2;
-    let mut walk = |what: String, head: u64, errors: &mut Vec<(&'static str, String)>| -> Vec<u64> {
+    let walk = |what: String, head: u64, errors: &mut Vec<(&'static str, String)>| -> Vec<u64> {
         let mut chain = Vec::new();
         let mut cur = head;
         while cur != 0 {
@@ -409,6 +409,8 @@ struct CaseOut {
     outs: Vec<String>,
     last_layout: String,
     verify_ok: bool,
+    /// Names in the order `objects()` yields them on the final state.
+    objects_order: String,
     labels: BTreeSet<&'static str>,
     failure: Option<Failure>,
 }
@@ -426,7 +428,7 @@ fn run_case<const N: usize>(
     let _ = std::fs::remove_file(path);
     let mut out = CaseOut {
         table: String::new(), outs: Vec::new(), last_layout: String::new(),
-        verify_ok: false, labels: BTreeSet::new(), failure: None,
+        verify_ok: false, objects_order: String::new(), labels: BTreeSet::new(), failure: None,
     };
     let append_mode = matches!(toks.first(), Some(Tok::A { .. }) | Some(Tok::Z));
     let mut handle: Handle<N>;
@@ -686,6 +688,19 @@ fn run_case<const N: usize>(
         }
     }
     out.last_layout = prev_layout;
+    if let Handle::Open(archive) = &handle {
+        out.objects_order = rvcore::catch(AssertUnwindSafe(|| {
+            let mut res = Vec::new();
+            for item in archive.objects().map_err(arch_err)? {
+                let (n, _, _) = item.map_err(arch_err)?;
+                res.push(match names.iter().position(|x| x.as_slice() == n.as_ref()) {
+                    Some(i) => i.to_string(),
+                    None => format!("x{}", hex(&n)),
+                });
+            }
+            Ok::<_, String>(res.join(","))
+        })).unwrap_or_else(|p| Err(format!("panic:{p}"))).unwrap_or_else(|e| e);
+    }
     drop(handle);
     let _ = std::fs::remove_file(path);
     out
@@ -932,7 +947,7 @@ pub fn run_c26(ctx: &mut Ctx) {
         Some(inputs) => inputs,
         None => {
             let mut res = ctx.corpus("C26");
-            let n = ctx.budget(600, 12_000);
+            let n = ctx.budget(600, 8_000);
             let full = ctx.quick();
             let mut rng = ctx.rng.fork();
             for i in 0..n {
@@ -941,6 +956,10 @@ pub fn run_c26(ctx: &mut Ctx) {
             }
             if ctx.quick() && !ctx.search {
                 res.extend(exhaustive(true, 2));
+            }
+            else if ctx.quick() {
+                res.extend(exhaustive(true, 3));
+                res.extend(exhaustive(false, 3));
             }
             else {
                 res.extend(exhaustive(true, 4));
@@ -987,7 +1006,8 @@ pub fn run_c26(ctx: &mut Ctx) {
             "c26 {}|{}|{}|{}", if full { "full" } else { "hash" }, msz, out.table, tok_strs.join(" ")
         );
         let imp = format!(
-            "{};L={};V={}", out.outs.join(";"), out.last_layout, if out.verify_ok { 1 } else { 0 }
+            "{};L={};V={};O={}", out.outs.join(";"), out.last_layout,
+            if out.verify_ok { 1 } else { 0 }, out.objects_order
         );
         ctx.case(&input, &op, &imp);
         for l in &out.labels { ctx.count(&format!("path:{l}")); }
